@@ -53,6 +53,7 @@ pub mod oracle;
 pub mod c08;
 pub mod c09;
 pub mod c13;
+pub mod c14;
 pub mod c15;
 pub mod c16;
 pub mod c17;
@@ -63,6 +64,7 @@ pub fn all_harnesses() -> Vec<&'static Harness> {
     v.extend(c08::HARNESSES.iter());
     v.extend(c09::HARNESSES.iter());
     v.extend(c13::HARNESSES.iter());
+    v.extend(c14::HARNESSES.iter());
     v.extend(c15::HARNESSES.iter());
     v.extend(c16::HARNESSES.iter());
     v.extend(c17::HARNESSES.iter());
